@@ -1040,7 +1040,85 @@ def check_misc(R, prog):
         R.bad(F("VIEW-SOURCES", fi, "CompleteBipartiteGraph.has_edge", "every in-range pair (and only those) is an edge"))
 
 
+def semantic_from_networkx(prog):
+    """fold BipartiteGraph.from_networkx on small networkx-like graphs whose nodes come in interleaved order and whose edges are
+    reported in both orientations: every add_edge must receive (index among the left nodes, index among the right nodes), 1-based in
+    order of appearance; a node without the `bipartite` mark or an edge inside one side must end in ValueError"""
+    import types
+    from ..fold import Folder, Raised
+    from ..ql import Unknown
+    fi = prog.func(MOD, "BipartiteGraph.from_networkx")
+
+    class FakeGraph:
+        pass
+
+    class Nodes:
+        def __init__(self, data):
+            self.data = data
+
+        def __call__(self):
+            return list(self.data)
+
+        def __getitem__(self, k):
+            return self.data[k]
+
+        def __iter__(self):
+            return iter(self.data)
+
+    def graph(nodes, edges):
+        g = FakeGraph()
+        g.nodes = Nodes(dict(nodes))
+        g.edges = lambda: list(edges)
+        g.name = "G"
+        return g
+    cases = [
+        ([("r1", {"bipartite": 1}), ("l1", {"bipartite": 0}), ("l2", {"bipartite": 0}), ("r2", {"bipartite": 1})],
+         [("r1", "l1"), ("l2", "r1"), ("l1", "r2")], [(1, 1), (2, 1), (1, 2)]),
+        ([("a", {"bipartite": "0"}), ("b", {"bipartite": "1"}), ("c", {"bipartite": "1"})], [("c", "a"), ("a", "b")], [(1, 2), (1, 1)]),
+        ([("a", {"bipartite": 0}), ("b", {})], [], ValueError),
+        ([("a", {"bipartite": 0}), ("b", {"bipartite": 0})], [("a", "b")], ValueError),
+        ([], [], []),
+    ]
+    for nodes, edges, want in cases:
+        added = []
+
+        def make(*a, **k):
+            B = types.SimpleNamespace()
+            B.add_edge = lambda u, v: added.append((u, v))
+            B.shape = a
+            return B
+        f = Folder(env={})
+        f.globals = {"networkx": types.SimpleNamespace(Graph=FakeGraph)}
+        try:
+            f.call_function(fi.node, [make, graph(nodes, edges)], {})
+            got = list(added)
+        except Raised as r:
+            got = ValueError if r.cls in ("ValueError",) else r.cls
+        except Unknown as e:
+            return None, "cannot fold from_networkx: %s" % e
+        except Exception as e:
+            return None, "cannot fold from_networkx: %s" % type(e).__name__
+        if got != want:
+            return False, ("for nodes %s and edges %s from_networkx adds %s; every edge must be entered as (left index, right index): %s"
+                           % ([(n, d) for n, d in nodes], edges, got, "ValueError" if want is ValueError else want))
+    return True, "%d small graphs folded (interleaved node order, both edge orientations, unmarked node, edge inside one side)" % len(cases)
+
+
 def check_bipartite_import(R, prog):
+    from ._shared import with_semantics
+    fi = prog.func(MOD, "BipartiteGraph.from_networkx")
+    verdict = semantic_from_networkx(prog)
+
+    def shape(T):
+        try:
+            _shape_bipartite_import(T, prog)
+        except AnalysisError:
+            if verdict[0] is not True:
+                raise
+    with_semantics(R, P, shape, verdict, "BipartiteGraph.from_networkx orientation", fi, rule="IMPORT-ORIENT")
+
+
+def _shape_bipartite_import(R, prog):
     """IMPORT-ORIENT: BipartiteGraph.from_networkx gives add_edge a left index first and a right index second, whatever
     order networkx reports the endpoints in.  Each index is `table[side][node]`; the side of both arguments must be decided (0 then 1)
     by the tests on the path to the call."""
